@@ -7,275 +7,294 @@ props = [json.loads(l)["id"] for l in open(os.path.join(ROOT, "properties.jsonl"
 TRUST = ("trusted base: pyvc front end (unverified VC generator), z3 5.1 / z3 4.8.12 / cvc5 1.0.3, CPython ast; "
          "assumptions per run are listed in evidence.assumptions (library contracts, abstract clauses, float treatment)")
 
-CLAIMS = {
-    "C06": dict(
-        category="proof",
-        text="Deductive proof, for all edge arrays / coordinates / weights and dims 1-3, that get_bin_on_value_1d returns the "
-             "number of edges <= value minus one (incl. termination), that get_bin_on_value is its pointwise lifting, that "
-             "check_edges_increasing raises exactly on non-increasing/too short edges, and that histogram.fill adds the weight to "
-             "exactly the containing half-open cell or to n_out_of_range and changes nothing else (frame). VCs are generated from the "
-             "real ASTs on every run. The float interpolation guess is abstracted (any integer shift), so rounding cannot matter; "
-             "float corner cases and the Histogram element are additionally run as a labelled bounded stand-in.",
-        design_ref="DESIGN.md 5 (C06), B.1",
-        technique="contract-based deductive verification: AST->SMT verification conditions (loop invariants, decreases, frame) "
-                  "discharged by z3/cvc5; bounded run-time contract evaluation as labelled stand-in",
-        note=TRUST + "; weight conservation follows from the per-fill postcondition over mathematical reals (float rounding of "
-             "+= not modelled); the pairwise-increasing form of the edges invariant is used (adjacent => pairwise by induction, lemma)"),
-    "C20": dict(
-        category="proof",
-        text="Every name-resolution obligation of lena/ is enumerated completely on each run and discharged by a static scope "
-             "resolver (symtable + ast): every __all__ entry is bound, every global name loaded by any function/method/class/"
-             "module body is bound at module scope or a builtin, every lena.<pkg>.<name> chain resolves inside the static import "
-             "closure of the using module's own subpackage. The resolver's import model is cross-validated against sys.modules in "
-             "fresh interpreters, and a vocabulary of public elements is run with only its subpackage imported (bounded stand-in). "
-             "Eight genuine defects found this way were repaired by fix: commits (known_findings.json).",
-        design_ref="DESIGN.md 5 (C20)",
-        technique="static obligations per name use, discharged by a scope resolver (finite, complete enumeration); fresh-interpreter "
-                  "runs as labelled bounded cross-check",
-        note="decided by a static resolver, not an SMT back end; trusted: CPython symtable/ast scoping, python-2 branches folded; "
-             "excluded: names injected via globals()[...] (flow/zip.py), attribute errors on instances, module-scope ordering"),
-}
 TECH = ("contract-based deductive verification: sidecar contracts on the real functions, verification conditions generated "
-        "from the /repo ASTs on every run (loop invariants, decreases, frame, laziness clauses at yields), discharged by "
-        "z3/cvc5; bounded run-time evaluation of reference specifications on the real code as labelled stand-in (never "
-        "counted as proved)")
-CLAIMS["C01"] = dict(
+        "from the /repo ASTs on every run (pre/postconditions, exact raise conditions, frames, loop invariants, decreases, "
+        "object invariants, laziness / identity clauses at yields, abandonment clauses, ownership clauses, ghost element "
+        "state and ghost file system, lemmas with induction over the contracts), discharged by z3 5.1 / z3 4.8.12 / cvc5; "
+        "bounded run-time evaluation of reference specifications on the real code as labelled stand-in (never counted as "
+        "proved)")
+ASM = ("; every assumption of a run (library contracts, assumed contracts of callees not yet proved, helpers executed in place, "
+       "opaque regions, termination not proved, floats as mathematical reals, typing preconditions of inputs) is listed in "
+       "evidence.assumptions; functions and cases under contract are listed in evidence.coverage.functions_under_contract")
+
+
+def claim(category, text, ref, note=""):
+    return dict(category=category, text=text, design_ref=ref, technique=TECH, note=TRUST + ASM + ("; " + note if note else ""))
+
+
+CLAIMS = {}
+CLAIMS["C01"] = claim("proof",
+    "Deductive proof over the abstract element interface (an element denotes a stream function el_run / a map el_call / a fold "
+    "el_fill+el_compute): Sequence.run returns, for element lists and flows of any length, exactly the left-to-right fold "
+    "seq_run(_data_seq, flow), pulls nothing while building the chain and always hands the first element an iterator; "
+    "Run._call_run maps, Run._fc_run fills every value in order and then computes; Source.__init__ keeps the first element itself "
+    "and builds the tail Sequence of the rest, Source.__call__ feeds first() (or the iterable, afresh on every call) into the "
+    "tail's fold; Run.__init__ and Sequence.__init__ (argument lists of length 0..2 unrolled, every element kind) accept exactly "
+    "the convertible kinds, keep order, drop _has_no_data elements and raise LenaTypeError at construction for anything else; "
+    "flatten keeps every element once and in order (flat input = same object) and alter_sequence without hooks returns the "
+    "original object (arity-wise cases 0..3); regrouping lemmas R1-R3 (induction): seq_run of a concatenation is the "
+    "composition of the seq_runs, hence a Sequence holding a nested Sequence runs like the flat one. Bounded part (labelled): "
+    "all bracketings of lists <= 3 over 20 concrete element kinds, every way of feeding (iterator, list, generator, dict view, "
+    "iter-only object, Source forms, repeated calls), ill-typed arguments incl. containers of elements.",
+    "DESIGN.md 0.3, 5 (C01), B.2", "element interface assumption (DESIGN 2.4 item 4); constructors proved for 0..2 (3) arguments (unrolled)")
+CLAIMS["C02"] = claim("other",
+    "Proof part (clauses stated AT THE YIELDS, hence valid for every consumer stop point k and for infinite inputs): "
+    "Sequence.run / Source.__call__ pull nothing while the chain is built; Run._call_run has pulled exactly k values at the "
+    "k-th result; Slice.run for every non-negative start/stop/step has pulled exactly start + k*step + 1 values at the k-th "
+    "result and never more than max(start, stop); Slice._run_negative_islice lags its input by exactly |stop| values and keeps "
+    "at most |index| values in its deque, a negative start with non-negative stop reads at most stop - start + 1 values; "
+    "Count.run keeps exactly one value of look-ahead; Filter.run, RunIf.run, Progress, End, CountFrom, RunningChunkBy (one "
+    "look-ahead) likewise; Cache.run does not touch the incoming flow when the cache exists; FillRequest runs hand results on "
+    "only at block boundaries; Split.run reads its input only by list(islice(flow, bufsize)) at the start of a block and at "
+    "every yield at most bufsize x (blocks started) values have been pulled. Not a lemma: the composition of these clauses "
+    "over arbitrary pipelines (user elements have no laziness contract). Bounded part (labelled): an independent list-level "
+    "oracle computes by brute force the shortest determining prefix and composes it through all singles / pairs / triples of "
+    "59 element instances and 2500 (thorough 40000) random pipelines, finite and infinite inputs, every k; weak-reference "
+    "liveness for negative Slice and Split.",
+    "DESIGN.md 0.3, 5 (C02)", "itertools.islice / count / chain / zip / collections.deque are library contracts (pull counts checked "
+    "against CPython 3.12); garbage-collector liveness is observable only by the bounded part")
+CLAIMS["C03"] = claim("other",
+    "Proof part: _get_seq_with_type (priority table for an element and for a tuple of two elements), Split.__init__ / "
+    "Zip.__init__ (0..2 branches: stored branches and types, which common-type methods are installed, exact LenaTypeError / "
+    "LenaValueError conditions) against the proved constructors of FillComputeSeq / FillRequestSeq; Split.run for ANY number of "
+    "branches of any kind: every fill receives the block's values in order, run receives exactly the current block, a Source "
+    "is called only in the first block (or the final pass of an empty flow), compute is called only in the state "
+    "fill_until_stop(branch, entry state, whole flow) - the bufsize independence of fill/compute branches -, request only after "
+    "the block was filled until the branch stopped, a branch is dropped iff it is a Source or one of its fills stopped, every "
+    "`for val in result: yield val` extends the output by exactly that result in order, the whole flow is consumed, laziness "
+    "at every yield; result-level: the empty flow (concatenation in branch order of every branch invoked once), one fill/compute "
+    "branch for every bufsize, one Source branch, one fill/request branch within one block; Split._fill / _compute / _request / "
+    "__call__ and Zip._fill / _yield / _compute / _request / _reset (tuples of the k-th results, stops with the shortest, (data, "
+    "context) iff the common context is non-empty). NOT proved: out == split_spec for mixed multi-branch multi-block runs as one "
+    "equation (the clauses above pin every call and yield instead). Bounded part (labelled): Split.run against split_spec "
+    "exhaustively over branch lists of length 0..3 (thorough 0..4), all 26 branch forms, LenaStopFill at every fill index, "
+    "bufsize in {1..L+1, 1000, None}, flows 0..4; bufsize independence; empty Split = identity; Zip tuples.",
+    "DESIGN.md 0.3, 5 (C03), Appendix A", "branches are pairwise different objects (precondition); constructors for 0..2 branches (unrolled)")
+CLAIMS["C04"] = claim("other",
+    "Proof part: Split.run / Split._fill / Zip._fill - what every branch but the last active one iterates or is filled with is a "
+    "deep copy made for it in that iteration (is_deep_copy + made_in_iteration at every element call) unless copy_buf is off; at "
+    "every yield of the compute() of Sum, DSum, Mean (incl. user sum_seq), Count, VarianceMeanCount, Vectorize, Histogram, Graph, "
+    "StoreFilled (the group list), SplitIntoBins.compute and of MapBins.run the yielded context is an object created during "
+    "the call by deep copy, not the stored / filled one and not one yielded before (is_fresh, is_deep_copy, made_in_iteration), "
+    "also when one call yields several results; the stored context is unchanged. Bounded part (labelled): object-identity "
+    "graphs (ids of every dict / list reachable) of yielded vs filled contexts and earlier yields for 33 accumulator "
+    "configurations over all histories of length <= 4 (thorough <= 6) of fill / compute / mutate-everything-yielded; Split / "
+    "Zip branches with in-place mutators driven by run, fill and request against the branch alone on a private copy.",
+    "DESIGN.md 0.3, 5 (C04)", "copy.deepcopy is a library contract; sharing nested inside dictionary VALUES is modelled by provenance "
+    "of cells, not by reachability sets (DESIGN 0.7): the bounded identity graphs cover that; branches mutate only what they reach")
+CLAIMS["C05"] = claim("other",
+    "Proof part: Run, Call, SourceEl, FillCompute, FillInto accept exactly the documented kinds, bind exactly the named method "
+    "in the documented priority and raise LenaTypeError at construction otherwise (complete over the predicate space callable / "
+    "has_attr); Call.__call__, FillInto.fill_into / _run_fill_into, Filter.fill_into, Slice.fill_into, Count.fill_into delegate "
+    "as documented; FillSeq.__init__ (chain of _Fill links, 1..3 elements), FillComputeSeq.__init__ and FillRequestSeq.__init__ / "
+    "_init_sequence_with_el (where the accumulator is found, FillSeq before it, Sequence after it, exact LenaTypeError / "
+    "LenaValueError conditions), their fill / compute / request / reset; lemmas over the contracts: a FillComputeSeq(f.., acc, "
+    "post..) filled value by value and then computed yields exactly what Sequence(f.., acc, post..).run yields (0, 1, 2 "
+    "callables before the accumulator); Split.run with one fill/compute branch equals el_compute(fill_until_stop(...)) for "
+    "every bufsize. Not in the lemma: pre-elements with their own fill_into (Filter, Slice) stopping with LenaStopFill. Bounded "
+    "part (labelled): the three drivers on all chains pre* acc post* with <= 2 pre elements (thorough <= 3) over 14..33 pre "
+    "kinds, 6..15 accumulators, flows 0..5, against a list-level reference; synthetic element kinds incl. falsy ones.",
+    "DESIGN.md 0.3, 5 (C05), B.2", "element interface assumption (DESIGN 2.4 item 4)")
+CLAIMS["C06"] = claim("proof",
+    "Deductive proof, for all edge arrays / coordinates / weights and dims 1-3, that get_bin_on_value_1d returns the number of "
+    "edges <= value minus one (incl. termination), that get_bin_on_value is its pointwise lifting, that check_edges_increasing "
+    "raises exactly on non-increasing / too short edges, that histogram.fill adds the weight to exactly the containing half-open "
+    "cell or to n_out_of_range and changes nothing else (frame), the Histogram element's fill, histogram.__init__ (1-d, 2-d) and "
+    "init_bins / get_bin_on_index. The float interpolation guess is abstracted (any integer shift), so rounding of the guess "
+    "cannot matter. Bounded part (labelled): float corner coordinates (nextafter neighbours, 1e-300 .. 1e300, integers beyond "
+    "2**53), every call under a watchdog.",
+    "DESIGN.md 0.3, 5 (C06), B.1", "weight conservation follows from the per-fill postcondition over mathematical reals (float "
+    "rounding of += not modelled)")
+CLAIMS["C07"] = claim("other",
+    "Proof part (SMT datatype Val = scalar | dict, unbounded depth and key sets, every level): difference == diff, "
+    "update_recursively makes d == upd(old d, other) (also for the dotted-string forms), intersection of 0..3 dictionaries == "
+    "inter (folded), is a deep copy and leaves its arguments unchanged, update_nested keeps the previous d[key] reachable "
+    "under the new one, exact LenaTypeError / LenaValueError conditions; the reference functions are written from the property "
+    "text; lemmas by structural induction: inter is idempotent, commutative, associative, absorbing; upd(inter(d1, d2), "
+    "diff(d1, d2)) == d1; results are dictionaries. Users: LenaSplit._get_context (intersection of the branch contexts), "
+    "group_plots. Bounded part (labelled): intersection for any number of arguments, the laws and deep-copy by object identity "
+    "exhaustively over the property's small alphabets, Zip._create_context.",
+    "DESIGN.md 0.3, 5 (C07), B.5", "only z3 decides Val queries (cvc5 1.0.3 rejects the nested-recursive datatype); dict iteration = "
+    "arbitrary unvisited key per step; intersection of more than 3 dictionaries and Zip._create_context are not proved")
+CLAIMS["C08"] = claim("other",
+    "Proof part: get_recursively (list of keys, dotted string, with / without default) == walk of the key path, exact "
+    "LenaKeyError / LenaTypeError; contains agrees with that walk; str_to_list / str_to_dict against nestk, law "
+    "get_recursively(str_to_dict(s, v), s) is v (none of its exception outcomes can occur); to_string == json canonical form "
+    "(sort_keys, separators checked at the call of json.dumps); format_context: the parser run from the real AST on literal "
+    "templates (8 well-formed, 9 malformed) and the returned closure for every field list (LenaKeyError iff an addressed item is "
+    "absent, LenaValueError iff str.format raises, LenaTypeError iff the context is no dictionary); format_update_with (plain "
+    "values, templates, string values), DeleteContext.__call__, UpdateContext.__init__ / __call__ (simple values, context "
+    "values with default / skip / raise, plain and jinja strings), UpdateContextFromStatic.run: exactly the addressed item "
+    "changes, data and every other item untouched, the stored update is deep-copied. Key-path lemmas (walk / store). Bounded part "
+    "(labelled): the three notations over all dotted strings of <= 4 components, format_context on all template strings of "
+    "length <= 5, to_string injective, UpdateContext over all 48 option combinations, frame by object identity.",
+    "DESIGN.md 0.3, 5 (C08), B.5", "str.format / json.dumps / jinja2 rendering are uninterpreted library functions with named "
+    "exceptions; format_context on a SYMBOLIC template is an assumed contract; the bare-data variants of two UpdateContext views are bounded only")
+CLAIMS["C09"] = claim("proof",
+    "Deductive proof for Sum, DSum, Mean (ordinary and with a user sum_seq), VarianceMeanCount, Vectorize (list of sequences or "
+    "element x dim; construct None), Count, StoreFilled, GroupBy, Histogram (1-d / 2-d fill; initial value, initial bins, "
+    "make_bins), Graph: __init__, fill (bare data and (data, context) pairs), compute and reset against the documented "
+    "aggregate over mathematical reals (Sum = left fold of + in fill order; DSum = exact decimal sum with the Inexact trap; "
+    "Mean = sum/count; VarianceMeanCount = Q/n - (S/n)^2, corrected by n/(n-1); Vectorize = row j holds the j-th result of "
+    "every component or None; GroupBy = groups keyed by the selected sub-context, arrival order kept; exact "
+    "LenaZeroDivisionError / LenaTypeError / LenaValueError conditions), with the context of the last filled value extended only "
+    "by the element's own keys; compute leaves the aggregate untouched (frame); 12 lemmas: after reset() every state field "
+    "equals that of a newly constructed element (or, for elements over abstract components, reset forgets the history). Bounded "
+    "part (labelled): all histories of length <= 5 (thorough <= 7) over {fill bare, fill with context, compute, reset} for 37 "
+    "configurations against references from the property text; DSum against exact Fraction sums.",
+    "DESIGN.md 0.3, 5 (C09), B.6", "floats as mathematical reals (CPython 3.12's compensated builtin sum is not the reference); decimal "
+    "is a library contract (termination of DSum's precision loop rests on dec_inexact(x, p) <=> p < digits(x)); Vectorize with "
+    "`construct` and 3-d Histogram.reset are bounded only")
+CLAIMS["C10"] = claim("other",
+    "Proof part: for ToCSV.run, Write.run, RenderLaTeX.run (user select_data and default csv test), LaTeXToPDF.run, PDFToPNG.run, "
+    "HistToGraph.run, MapBins.run, IterateBins.run, RunIf.run, MapGroup.run (map_scalars off), GroupPlots.run - with the SELECTION "
+    "TEST executed from the real AST - at every yield: a value that is not selected is yielded as the very same object, exactly "
+    "one value per input value in order (pulled(flow) == i + 1), the ghost file system and the value's context are unchanged, no "
+    "field of self is modified (frame); what is produced for a selected value is stated from the current value and the "
+    "element's configuration only (every loop-carried local is unknown at the loop head, so state carried between iterations "
+    "breaks the equation); the (data, context) rule itself (_has_context / get_data_context / get_data / get_context) on 13 "
+    "concretely typed shapes. Abstracted and listed as assumptions: CSV text, jinja rendering, subprocess commands, the "
+    "process pool of LaTeXToPDF and the real-group branch of MapGroup (opaque regions). Bounded part (labelled): for 25 "
+    "configurations run(interleave(A, B)) == interleave(run(A), B) over all 69 interleavings of <= 3 selected with <= 3 "
+    "unselected values of 30+ kinds (incl. look-alike lists, options and directories carried by unselected values).",
+    "DESIGN.md 0.3, 5 (C10)", "converters are stubs in the bounded part; only the working directory is snapshotted")
+CLAIMS["C11"] = claim("other",
+    "Proof part: get_bin_on_value(_1d) (C06); SplitIntoBins.__init__ (every cell a pairwise distinct deep copy of the sequence, "
+    "exact LenaValueError / LenaTypeError), SplitIntoBins.fill (1-d, 2-d: exactly the cell whose half-open interval holds the "
+    "argument is filled, with a deep copy of the context; out-of-range values change nothing), SplitIntoBins.compute (1-d; 2-d "
+    "with two rows: cell k holds the k-th result of that cell's sequence, edges are self.edges, number of yields = shortest "
+    "cell, context.variable describes the argument variable, every yielded context a new deep copy, a second compute yields the "
+    "same), _MdSeqMap, MapBins.run (same shape, deep-copied edges, every cell mapped by its own copy of the sequence), "
+    "IterateBins.run (1-d: one value per cell with its own edges in context.bin), get_example_bin, iter_bins_with_edges, "
+    "cell_to_string, init_bins. Bounded part (labelled): SplitIntoBins against an independent private copy of the analysis per "
+    "cell on that cell's sub-flow, exhaustively for all 11 increasing 1-d edge lists over {0..3} with flows of length <= 3 "
+    "(thorough <= 4), 9 2-d edge pairs, 11 analyses x 7 argument variables, integer coordinates beyond 2**53, IterateBins, "
+    "MapBins, md_map. One open known finding (IterateBins on a 2-d histogram of a plain Variable).",
+    "DESIGN.md 0.3, 5 (C11)", "2-d with both lengths symbolic, IterateBins 2-d and 3-d are bounded only")
+CLAIMS["C12"] = claim("other",
+    "Proof part: histogram.__init__ / scale / add / get_nevents / set_nevents, integral, iter_bins for 1-d and 2-d histograms "
+    "(cell-wise a + w*b, operands unmodified, LenaValueError iff edges differ beyond the given tolerances via isclose; scale "
+    "multiplies exactly bins and n_out_of_range by s / old scale, LenaValueError iff the old scale is 0, the recomputed scale "
+    "equals s - scaling lemmas for lsum / integral1d / integral2d by induction); iter_bins_with_edges, iter_cells (1-d, all "
+    "range typings); graph.__init__ (12 shapes x scale; which error field belongs to which coordinate; exact LenaValueError), "
+    "graph.scale (53 cases: exactly the last coordinate and ITS error columns are multiplied, every other column untouched, "
+    "aliased columns), hist_to_graph (1-d, all get_coordinate modes, make_value variants), hist1d_to_csv, hist2d_to_csv "
+    "(row-major reference incl. rectangular shapes and the duplicated last-edge rows), iterable_to_table, ScaleTo.__call__, "
+    "scale_to on groups, md_map. Number formatting is an uninterpreted function (assumption). Bounded part (labelled): all of the "
+    "above exhaustively over all shapes of dims 1-3 with 1..3 bins per axis (thorough 1..4) against exact Fraction arithmetic, "
+    "2212 error-field namings, tolerance semantics at magnitudes 1e-10 .. 1e6, CSV parse-back.",
+    "DESIGN.md 0.3, 5 (C12)", "3-d histograms, iter_cells / iter_bins_with_edges in 2-d, field names given as one string are bounded only")
+CLAIMS["C13"] = claim("other",
+    "Proof part: LenaSequence._set_context for any number of elements against the document-order fold (the context handed to "
+    "each element is the fold of the prefix and is non-empty; _get_context of an element replaces it; an unresolved key is "
+    "remembered and raised as LenaKeyError; lemma: nothing changes after a stop); LenaSequence / SetContext ._get_context return "
+    "a deep copy; SetContext._set_context (numbers, booleans, dictionaries, strings, templates: context == upd(old, nestk(key, "
+    "value)), exact LenaValueError / LenaTypeError); StoreContext, UpdateContextFromStatic (_set_context and run), MakeFilename "
+    "retain a deep copy of what they are given and leave the argument unchanged; LenaSplit._set_context hands every branch its "
+    "own deep copy, LenaSplit._get_context is the intersection of the branches' contexts. Bounded part (labelled): ALL trees of "
+    "Sequence / Source / Split with <= 4 nodes (thorough <= 5), depth <= 3, over 6 SetContext forms with all 9 probes in every "
+    "gap, against a pure document-order fold; files actually written by Write and Cache. Three open known findings (empty Split "
+    "erases the context; Source tail re-threads the context; sibling branch after an unresolved key, depth 4).",
+    "DESIGN.md 0.3, 5 (C13)", "the abstract element model leaves an element's state unchanged when its _set_context raises")
+CLAIMS["C14"] = claim("other",
+    "Proof part: Variable.__init__ (well-formed var_context, LenaTypeError conditions), Variable.__call__ (getter(data) with the "
+    "value's own context object, nothing of it changed but context.variable, the variable itself unchanged), "
+    "Variable._update_context PROVED against a postcondition from the property text (no history: the variable's own context; "
+    "typed history and typed variable: compose == old compose (or [old type]) ++ own compose (or [own type]), every composed "
+    "variable's attributes stay under its type; nothing else of the context changes; var_context not shared), Compose.__init__ "
+    "for 1 and 2 variables with and without name= (the getter is vn.getter(...v1.getter(x)...), the new var_context satisfies "
+    "the same clauses as applying the variables one after the other - Compose == Sequence for n = 2). Bounded part (labelled): "
+    "Compose vs Sequence vs the fold of tagged getters for all chains of 1..5 variables over 3 type alphabets x 4 attribute "
+    "sets x 10 value contexts, Combine of 1..4, nested forms, repeated application. One open known finding (chains with "
+    "untyped variables after a typed context.variable; that region is left unspecified by the contract).",
+    "DESIGN.md 0.3, 5 (C14)", "Combine (class __setattr__, lambda getter) and Compose for n > 2 are bounded only")
+CLAIMS["C15"] = claim("other",
+    "Proof part: Selector.__init__ (13 typings of the specification: class, callable, string, list = Or, tuple = And, Selector "
+    "object; LenaTypeError otherwise), And / Or / Not __init__ and __call__ (short circuit, a member's error propagates only "
+    "if reached and raise_on_error), Selector.__call__, five lemmas Selector(spec)(v) == the property's reference; contains "
+    "(string leaf); SelectContext.__init__ / __call__ (absent sub-context = False, an exception of the predicate - LenaKeyError "
+    "included - is the predicate's error); Filter.__init__ / run / fill_into (keeps exactly the selected values, by identity, in "
+    "order); IncludeExcludeTree.get == sel(tree, context) (reference from the docstrings), lemmas: two contexts have equal "
+    "selections exactly when they agree on every selected path; IncludeExcludeTree.__init__, _split_key, _startswith, "
+    "_group_by_starting_prefixes (insensitive to the order of the listed paths), make_include_exclude_tree / GroupBy.__init__ "
+    "(15 typings) against the recursive core assumed deterministic, GroupBy.fill / compute / reset. NOT proved: "
+    "_make_include_exclude_tree, hence the link from (group_by, merge) to the longest-listed-prefix rule. Bounded part "
+    "(labelled): Selector / And / Or / Not / SelectContext / Filter against a three-valued reference evaluator over all "
+    "specifications of nesting <= 2 (sampled 3); GroupBy against the longest-listed-prefix partition for every group_by / merge "
+    "labelling of <= 2 (thorough <= 4) of the 14 key paths over {a, b}, 361 contexts each.",
+    "DESIGN.md 0.3, 5 (C15)")
+CLAIMS["C16"] = claim("other",
+    "Proof part: FillRequest.__init__ (9 option typings: methods / run variant installed, exact LenaTypeError / LenaValueError), "
+    "reset, fill (buffer_input; buffer_output within a block), request (buffer_output with nothing buffered; buffer_input at "
+    "complete blocks: every yield is the k-th result of the request made on the state folded from exactly that block; incomplete "
+    "block: nothing yielded), _run_fill_compute (states between blocks == fr_start, every filled value is the one just pulled, "
+    "one request per block at its end or - with yield_on_remainder - at the flow's end, reset only after a complete block iff "
+    "reset, call counters fills == pulled, output positions, laziness), _run_run (buffer_input; yield_on_remainder under "
+    "reads_all), FillRequestSeq.request / reset, FillComputeSeq.compute, _Fill.fill. The clauses that FAIL on the unchanged tree "
+    "are kept apart (props=[]) and coincide with the three open known findings (buffer_output fill past a full block hangs; "
+    "buffer_input after a misaligned request; run element that does not exhaust its block). Bounded part (labelled): run against "
+    "blocks_spec for all element kinds, bufsize 1..5, both buffer modes, reset, yield_on_remainder, flows 0..11 (thorough "
+    "0..16); fill()/request() under ALL request schedules (L <= 6, thorough <= 10) with a step watchdog; Split around a "
+    "FillRequest branch.",
+    "DESIGN.md 0.3, 5 (C16)", "_run_run with buffer_output (function-local iterator class) is bounded only")
+CLAIMS["C17"] = claim("proof",
+    "Deductive proof: Slice.__init__ (14 typings: LenaValueError iff the step is an int <= 0; which run closure is installed), "
+    "Slice.run for non-negative arguments (out[k] is xs[start + k*step] by identity, length as python's slice), "
+    "Slice._run_negative_islice for all six sign branches (out == content(flow)[start:stop] elementwise by identity with python's "
+    "clamping; with step > 1 the installed closure is islice over it), Slice.fill_into (fills iff the running index is in "
+    "range(start, stop, step), LenaStopFill exactly when no later index is selected), Reverse.run (reversed, terminates), "
+    "Chain (concatenation by identity), CountFrom (start + k*step, never ends, TypeError conditions), RunningChunkBy.run (k-th "
+    "result = container of xs[k:k+size], max(0, n - size + 1) results; tuple and abstract containers). Bounded part (labelled): "
+    "the property's whole finite domain - start, stop in {None, -7..7}, step in {None, 1..4}, flows 0..10 - enumerated "
+    "completely (exhaustive: true), constructor rejections, container kinds.",
+    "DESIGN.md 0.3, 5 (C17), B.3", "itertools.islice / count / chain / zip and collections.deque are library contracts")
+CLAIMS["C18"] = claim("proof",
+    "Deductive proof over a ghost file system (path -> absent | sequence of pickled values; open / pickle / os.replace / "
+    "os.remove / os.access are library contracts): Cache._dump_flow_and_yield passes the flow unaltered and lazily, keeps the "
+    "values seen so far in a temporary file, and stores the whole flow under the cache name only on exhaustion; at EVERY yield "
+    "(= every consumer stop point k and every downstream raise, explored as GeneratorExit travelling through the function's "
+    "try/finally) and when the upstream raises while the next value is pulled, the cache name holds exactly what it held before "
+    "and no temporary file is left - so no truncated flow can ever be served. Cache._load_flow yields exactly the stored values "
+    "in order and terminates; Cache.run replays the stored flow without pulling a single value from the incoming flow and "
+    "without touching the file system when the cache exists and recompute is off; cache_exists / drop_cache as documented; "
+    "Cache.alter_sequence hoists the last filled, non-recompute Cache into Source(SourceEl(cache, '_load_flow'), rest) and "
+    "otherwise returns the same object. Bounded part (labelled): histories of first / repeated / recompute / drop runs with "
+    "every crash point on a real temp directory in 17 forms incl. alter_sequence hoisting and Split, one and two caches, "
+    "flows re-yielding one mutated object.",
+    "DESIGN.md 0.3, 5 (C18), B.7", "the ghost file system stands for the OS: real files, interpreter death and buffering are "
+    "exercised only by the bounded part; alter_sequence for sequences of symbolic length is bounded")
+CLAIMS["C19"] = claim("other",
+    "Proof part (ghost file system; every clause holds AT THE YIELD of each value): Write.run (unselected / already written "
+    "values pass untouched; for a written value the file at the yielded path exists and holds exactly the current data, no other "
+    "file is touched, an existing file with the same content is not rewritten, output.changed as documented for existing "
+    "files), Write.run.is_writable and Write._make_filename PROVED (fileext / filename / dirname defaults, filepath = "
+    "join(output_directory, dirname, filename.fileext), LenaRuntimeError iff the filename is empty), Write._write_data; "
+    "MakeFilename.__init__ (34 cases) / __call__ (20 configurations of 1..2 keys: existing names kept unless overwrite, an "
+    "unformattable key leaves everything untouched incl. pending prefix / suffix, filename = prefix + name + suffix with the "
+    "consumed prefix / suffix deleted; lemma: a pending suffix is applied exactly once) / _set_context; LaTeXToPDF.run (a TeX "
+    "file is passed on at once only if not overwrite, the pdf exists and nothing changed - output.changed or the mtime "
+    "comparison -, otherwise the pdf exists afterwards and changed = True), PDFToPNG.run (redo iff target missing, overwrite or "
+    "changed), RenderLaTeX.run, group_plots / _update_with_group (the group's changed flag is the OR of its members'), "
+    "GroupPlots.run, GroupScale. One open known finding (Write leaves output.changed unset when it CREATES a file: the repair "
+    "contradicts an existing test) - the proved `changed` clauses are stated for existing files. Bounded part (labelled): the "
+    "real pipeline and its group variant on a temp directory with recording stub converters over all histories of 1..2 runs "
+    "(thorough 1..3) of keep/change data, keep/change template, delete any subset of {csv, tex, pdf, png}.",
+    "DESIGN.md 0.3, 5 (C19), B.7", "names are relative paths (precondition); the process pool of LaTeXToPDF and the converter commands are "
+    "assumed actions; MakeFilename configurations of >= 3 keys proved once (75 s / 200 s each) and left to the bounded part")
+CLAIMS["C20"] = dict(
     category="proof",
-    text="Deductive proof over the abstract element interface (an element denotes a stream function el_run / a map el_call / "
-         "a fold el_fill+el_compute): Sequence.run returns, for element lists and flows of any length, exactly the left-to-right "
-         "fold seq_run(_data_seq, flow) and pulls nothing while building the chain; Run._call_run maps, Run._fc_run fills every "
-         "value in order and then computes; Source.__call__ feeds first() (or the iterable) into the tail's fold; Run.__init__ "
-         "and Sequence.__init__ (argument lists of length 0..2 unrolled, every element kind) accept exactly the convertible "
-         "kinds, keep order, drop _has_no_data elements and raise LenaTypeError at construction for anything else - Sequence.run "
-         "itself has no raising path. Regrouping into nested Sequences / Source tails follows because a nested Sequence is an "
-         "element whose el_run is its own fold (fold of a concatenation = composition of folds; that lemma, flatten/"
-         "alter_sequence and the concrete framework elements are exercised by the bounded stand-in: all bracketings of lists "
-         "<= 3 over 20 element kinds, exhaustively).",
-    design_ref="DESIGN.md 5 (C01), B.2", technique=TECH,
-    note=TRUST + "; element interface assumption (DESIGN 2.4 item 4); Sequence.__init__ proved for 0..2 arguments (unrolled), "
-         "LenaSequence._set_context assumed there (it is the subject of C13)")
-CLAIMS["C07"] = dict(
-    category="other",
-    text="Proof part: difference(d1, d2, level) == diff(d1, d2, level) and update_recursively makes d == upd(old d, other), for "
-         "all nested dictionaries (SMT datatype Val = scalar | dict, unbounded depth and key sets, every level), with the "
-         "reference functions written from the property text (items of d1 not contained in d2 incl. falsy values; other "
-         "contained in d, untouched items kept); arguments documented as unchanged are immutable values in the encoding and "
-         "the bodies perform no store into them; LenaTypeError exactly for non-dict arguments. Bounded part (labelled, never "
-         "counted as proved): intersection, update_nested, and the algebraic laws (commutative / associative / idempotent / "
-         "greatest lower bound / deep copy by object identity / reconstruct law) exhaustively over the property's small "
-         "alphabets, plus the users in split.py, zip.py, group_plots.py. A genuine defect (difference dropped falsy values) "
-         "was found by both parts and repaired by a fix: commit.",
-    design_ref="DESIGN.md 5 (C07), B.5", technique=TECH,
-    note=TRUST + "; only z3 decides Val queries (cvc5 1.0.3 rejects the nested-recursive datatype); dict iteration = arbitrary "
-         "unvisited key per step; termination of recursion over finite nested dicts assumed")
-CLAIMS["C17"] = dict(
-    category="other",
-    text="Proof part: Slice.fill_into (steps 1..4, unbounded start/stop/index) fills the wrapped element iff the running index is "
-         "in range(start, stop, step), keeps its object invariant (_next_index is the least selected index >= _index-1) and "
-         "raises LenaStopFill exactly when no index >= the current one is selected (or the element itself stops); Reverse.run "
-         "yields the flow reversed and terminates (decreases clause). Bounded part (labelled): the property's whole finite "
-         "domain - start, stop in {None,-7..7}, step in {None,1..4}, flows 0..10 for Slice.run against xs[start:stop:step] by "
-         "identity, fill_into against every later index, constructor rejections, Chain / CountFrom / RunningChunkBy - is "
-         "enumerated completely (exhaustive: true).",
-    design_ref="DESIGN.md 5 (C17), B.3", technique=TECH,
-    note=TRUST + "; islice(count(0), start, stop, step) = arithmetic progression (library contract, tier A); Slice.run is "
-         "itertools.islice itself (library); _run_negative_islice is bounded only")
-BOUNDED_TECH = ("bounded stand-in (run-time evaluation of a reference specification written from the property text on the "
-                "real code over a stated finite scope, exhaustive where marked); contract-based proof obligations for this "
-                "property's functions are listed in the evidence when present and are the only part counted as proved")
-
-
-def bounded_claim(text, ref, note=""):
-    return dict(category="other", text=text, design_ref=ref, technique=BOUNDED_TECH,
-                note="labelled bounded, never counted as proved; trusted: the reference oracle in /verif/bounded, CPython; " + note)
-
-
-CLAIMS["C03"] = bounded_claim(
-    "Bounded: Split.run against the property's schedule reference split_spec (blocks of bufsize; per block in branch order: "
-    "Source once, Sequence per block, fill/request fills + request(), fill/compute fills, LenaStopFill => finalise and drop; "
-    "final compute() pass; empty flow invokes every branch once) exhaustively over branch lists of length 0..3 (thorough 0..4) "
-    "of the four kinds with tagged outputs, LenaStopFill at every fill index, bufsize in {1..L+1, 1000, None}, copy_buf, flows "
-    "0..4; all 25 branch forms of _get_seq_with_type; bufsize independence; empty Split = identity (same objects); common-type "
-    "methods fill/compute/request/__call__; Zip tuples. Proof obligations (evidence): Split.run's local disciplines - both "
-    "scheduling loops terminate, the active-branch lists stay index-safe, a Source still active at the end implies an empty "
-    "flow, the block is read only at the start of a block, every consuming branch gets its own buffer; Split._fill / "
-    "Zip._fill hand every branch but the last a deep copy; Split._empty_run is the lazy identity. The complete output "
-    "schedule against split_spec is NOT proved (protocol-sized proof of DESIGN 5/C03): bounded. One genuine defect repaired "
-    "(fix: 70b6ae2).", "DESIGN.md 5 (C03), Appendix A")
-CLAIMS["C04"] = dict(
-    category="other",
-    text="Proof part: at every yield of Sum.compute, Mean.compute and Count.compute the yielded context is an object created "
-         "during the call (deep copy), never the stored / filled one (is_fresh clause at the yield; top-level identity - nested "
-         "sharing is not modelled by the encoding). Bounded part (labelled): object-identity graphs (ids of every dict/list "
-         "reachable) of yielded vs filled contexts and earlier yields for 33 accumulator configurations over all histories of "
-         "length <= 4 (thorough <= 6) of fill / compute / mutate-everything-yielded; Split / Zip branches with in-place mutators "
-         "driven by run, fill and request against the branch alone on a private copy. Two genuine defects repaired (fix: "
-         "c178926, 92c6a51).",
-    design_ref="DESIGN.md 5 (C04)", technique=TECH,
-    note=TRUST + "; copy.deepcopy is a library contract (tier A); branches mutate only what they reach (interface assumption)")
-CLAIMS["C05"] = dict(
-    category="other",
-    text="Proof part (loop-free, complete over the abstract predicate space callable(el) / callable_m(el, name) / has_attr): "
-         "Run, Call, SourceEl, FillCompute and FillInto accept exactly the documented kinds, bind exactly the named method "
-         "(function identity) in the documented priority and raise LenaTypeError at construction otherwise; Call.__call__, "
-         "FillInto.fill_into and FillInto._run_fill_into delegate as documented (fold of el_fill over el_run([value])); "
-         "Slice.fill_into (C17 contract). Bounded part (labelled): the three drivers Sequence.run / Split branch with every "
-         "bufsize / FillComputeSeq-FillSeq fill-until-LenaStopFill-then-compute on all chains pre* acc post* with <= 2 pre "
-         "elements (thorough <= 3) over 14..33 pre kinds, 6..15 accumulators, flows 0..5, against a list-level reference.",
-    design_ref="DESIGN.md 5 (C05), B.2", technique=TECH, note=TRUST + "; element interface assumption (DESIGN 2.4 item 4)")
-CLAIMS["C10"] = dict(
-    category="other",
-    text="Proof part: RunIf.run - at every yield on a path where the selector is false the yielded value is the loop variable "
-         "itself (identity), and exactly the values consumed so far have been pulled. Bounded part (labelled): for 25 "
-         "configurations of the ten selective elements, run(interleave(A, B)) == interleave(run(A), B) with every unselected b "
-         "passed by `is`, in order and position, unmodified, no file-system effect and no converter launch (recording stubs), "
-         "over all 69 interleavings of <= 3 selected with <= 3 unselected values of 21+ kinds. One genuine defect repaired "
-         "(fix: 46615dc).",
-    design_ref="DESIGN.md 5 (C10)", technique=TECH, note=TRUST + "; converters are stubs; only the working directory is snapshotted")
-CLAIMS["C12"] = bounded_claim(
-    "Bounded: histogram.scale / integral / add / get_nevents / set_nevents, graph.scale over every valid error-field naming "
-    "(2212 namings), hist_to_graph (all get_coordinate modes), iter_bins / iter_bins_with_edges / iter_cells agreement incl. "
-    "all index ranges, hist1d_to_csv / hist2d_to_csv / ToCSV parse-back, scale_to / ScaleTo, exhaustively over all shapes of "
-    "dims 1-3 with 1..3 bins per axis (thorough 1..4) against exact Fraction arithmetic. Proof obligations: the C06 bin-search "
-    "contract get_bin_on_value_1d that iter_cells' coordinate ranges rest on. One genuine defect repaired (fix: bc48c8e).",
-    "DESIGN.md 5 (C12)")
-CLAIMS["C15"] = dict(
-    category="other",
-    text="Proof part: Selector.__call__ (an exception of the leaf propagates iff raise_on_error, else counts as not selected), "
-         "Not.__call__ (negation; full negation of an error without raise_on_error), And / Or.__call__ (conjunction / "
-         "disjunction over any number of members) over abstract leaf callables; contains(d, s) (the string leaf) against the "
-         "key-path walk reference, no exception for dictionaries. Bounded part (labelled): Selector / And / Or / Not / SelectContext / Filter against the three-valued "
-         "reference evaluator over all specifications of nesting <= 2 (and sampled nesting 3) on both raise_on_error flags; "
-         "GroupBy against the longest-listed-prefix partition for every group_by / merge labelling of <= 2 (thorough <= 4) of "
-         "the 14 key paths over {a,b}, 361 contexts each. Two genuine defects repaired (fix: d3e7985, be31c5e).",
-    design_ref="DESIGN.md 5 (C15)", technique=TECH, note=TRUST)
-CLAIMS["C18"] = dict(
-    category="proof",
-    text="Deductive proof over a ghost file system (path -> absent | sequence of pickled values; open / pickle / os.replace / "
-         "os.remove / os.access are library contracts): Cache._dump_flow_and_yield passes the flow unaltered and lazily, keeps "
-         "the values seen so far in a temporary file, and stores the whole flow under the cache name only on exhaustion; at EVERY "
-         "yield (= every consumer stop point k and every downstream raise, explored as GeneratorExit travelling through the "
-         "function's try/finally) and when the upstream raises while the next value is pulled, the cache name holds exactly what "
-         "it held before and no temporary file is left - so no truncated flow can ever be served. Cache._load_flow yields exactly "
-         "the stored values in order and terminates; Cache.run replays the stored flow without pulling a single value from the "
-         "incoming flow and without touching the file system when the cache exists and recompute is off, and passes the incoming "
-         "flow otherwise; cache_exists / drop_cache as documented. Bounded part (labelled): histories of first / repeated / "
-         "recompute / drop runs with every crash point on a real temp directory in 17 forms incl. alter_sequence hoisting and "
-         "Split, one and two caches. One genuine defect repaired (fix: 62835fd).",
-    design_ref="DESIGN.md 5 (C18), B.7", technique=TECH,
-    note=TRUST + "; the ghost file system and its library contracts (tier A) stand for the OS: real files, interpreter death "
-         "and buffering are exercised only by the bounded part; alter_sequence / Split hoisting is bounded only")
-CLAIMS["C19"] = dict(
-    category="other",
-    text="Proof part (ghost file system; every clause holds AT THE YIELD of each value, for all flows): Write.run - a value that "
-         "is not selected, or whose data is the path another Write already wrote, passes as the very same object and nothing "
-         "on disk is touched; for a written value the file at the yielded path exists and holds exactly the current data "
-         "(unless existing_unchanged promises existing files are current), no other file is touched, an existing file with "
-         "the same content is not rewritten (unless overwrite), an existing file is never rewritten with existing_unchanged, "
-         "output.changed is True when an existing file was rewritten or overwrite is set and otherwise keeps what came from "
-         "upstream, output.filepath and the yielded path agree and the context object is the value's own; Write._write_data "
-         "replaces exactly that file. The selection predicate (nested is_writable) and _make_filename are assumed here. "
-         "Bounded part (labelled): the real pipeline ToCSV, MakeFilename, Write, RenderLaTeX, Write, LaTeXToPDF, PDFToPNG and "
-         "its group variant on a temp directory with recording stub converters over all histories of 1..2 runs (thorough "
-         "1..3) of keep/change data, keep/change template, delete any subset of {csv, tex, pdf, png}; decision tables of "
-         "Write.run, LaTeXToPDF.run, PDFToPNG.run, MakeFilename, group_plots / MapGroup. One genuine defect repaired (fix: "
-         "63aa3e2), one open known finding (Write leaves output.changed unset when it CREATES a file: the repair contradicts "
-         "an existing test) - the proved `changed` clauses are stated for existing files, so the finding's region is exactly "
-         "the missing-file branch.",
-    design_ref="DESIGN.md 5 (C19), B.7", technique=TECH,
-    note=TRUST + "; the ghost file system stands for the OS (tier A); LaTeXToPDF / PDFToPNG (process pools) and MakeFilename are "
-         "bounded only")
-CLAIMS["C16"] = bounded_claim(
-    "Proof obligations (evidence): FillRequest._run_fill_compute (the run method of fill/compute and fill/request elements, "
-    "used by FillRequestSeq.run) consumes the flow in consecutive blocks of exactly bufsize values (pulled == blocks x "
-    "bufsize at every block boundary: nothing skipped, nothing read twice), yields only at a block boundary or - with "
-    "yield_on_remainder - for the final partial block, yields nothing for an empty flow, and terminates. "
-    "Bounded: FillRequest.run against the block reference blocks_spec for run / fill-compute / fill-request elements, bufsize "
-    "1..5, buffer_input / buffer_output, reset, yield_on_remainder, flows 0..11 (thorough 0..16); fill()/request() under ALL "
-    "request schedules (request or not after each of 0..L fills, L <= 6, thorough <= 10) with a deterministic step watchdog "
-    "for hangs, single accounting of every value and the one-block buffer bound; Split around a FillRequest branch for block "
-    "sizes dividing and not dividing; FillRequestSeq wiring. Three genuine defects are open known findings identified by "
-    "region (buffer_output fill past a full block hangs; buffer_input results after a misaligned request; run element that "
-    "does not exhaust its block): every configuration that works today has its own failure ids, so a regression there is "
-    "still reported. fill()/request() and _run_run are bounded only.", "DESIGN.md 5 (C16)")
-CLAIMS["C09"] = dict(
-    category="other",
-    text="Proof part: Sum, Mean (ordinary summation), Count, StoreFilled - __init__, fill (bare data and (data, context) pairs), "
-         "compute and reset against the documented aggregate over mathematical reals (Sum = left fold of + from the start value in "
-         "fill order; Mean = sum/count, LenaZeroDivisionError exactly when nothing was filled and not pass_on_empty; Count = number "
-         "of fills, context extended only by {name: count}), with the context of the last filled value; compute leaves the "
-         "aggregate untouched (frame); lemma per class: after reset() every state field equals that of a newly constructed "
-         "element. Bounded part (labelled): all histories of length <= 5 (thorough <= 7) over {fill bare, fill with context, "
-         "compute, reset} for 37 configurations of Sum, DSum, Mean, VarianceMeanCount, Vectorize, Count, StoreFilled, GroupBy, "
-         "Histogram, Graph against references from the property text and against a fresh element on the suffix after the last "
-         "reset; DSum against exact Fraction sums. Three genuine defects repaired (fix: Histogram.reset/__init__, Vectorize, "
-         "Graph.reset).",
-    design_ref="DESIGN.md 5 (C09), B.6", technique=TECH,
-    note=TRUST + "; floats as mathematical reals (DESIGN 2.4 item 1b/1c; CPython 3.12's compensated builtin sum is not the "
-         "reference); DSum's Decimal loop, VarianceMeanCount and Vectorize are bounded only")
-CLAIMS["C08"] = dict(
-    category="other",
-    text="Proof part: get_recursively for a list of keys (with and without default) returns exactly the item reached by walking "
-         "the key path through nested dictionaries (reference walk(d, ks, i, n), unbounded path length and dictionaries), raises "
-         "LenaKeyError exactly when the path is absent or passes through a non-dictionary, LenaTypeError exactly for a "
-         "non-dictionary d; contains(d, s) agrees with that walk (prefix exists and holds the last component, or is a scalar "
-         "whose string form is the last component) and never raises for a dictionary. Bounded part (labelled): the three key "
-         "notations and the law get_recursively(str_to_dict(s, v), s) is v over all dotted strings of <= 4 components incl. "
-         "empty ones; format_context on all template strings of length <= 5 over `{}a.:!x` and well-formed templates with "
-         "0..3 fields; to_string canonical / injective; UpdateContext over all 48 option combinations, DeleteContext, "
-         "format_update_with with frame (every other item untouched, data identity, deep copy). Five genuine defects repaired "
-         "(fix: commits, known_findings.json).",
-    design_ref="DESIGN.md 5 (C08), B.5", technique=TECH,
-    note=TRUST + "; str.split / str.format / json.dumps / jinja2 are library behaviour (tier A); the dotted-string and dictionary "
-         "notations of get_recursively, str_to_dict and format_context are bounded only")
-CLAIMS["C11"] = dict(
-    category="other",
-    text="Proof part: the routing function - get_bin_on_value / get_bin_on_value_1d return, per axis, the number of edges <= the "
-         "coordinate minus one (C06 contracts), which SplitIntoBins.fill uses to pick the cell. Bounded part (labelled): "
-         "SplitIntoBins against an independent private copy of the analysis per cell run on exactly that cell's sub-flow, "
-         "exhaustively for all 11 increasing 1-d edge lists over {0..3} with flows of length <= 3 (thorough <= 4) over inside / "
-         "border / outside coordinates, 9 2-d edge pairs, 11 analyses (incl. context-mutating and multi-result ones) x 7 "
-         "argument variables, fill/compute histories, IterateBins, MapBins, md_map, _MdSeqMap. One genuine defect repaired, one "
-         "open known finding (IterateBins on a 2-d histogram of a plain Variable).",
-    design_ref="DESIGN.md 5 (C11)", technique=TECH, note=TRUST)
-CLAIMS["C13"] = bounded_claim(
-    "Bounded: every StoreContext, UpdateContextFromStatic, MakeFilename, Write, Cache, SetContext and container of ALL trees of "
-    "Sequence / Source / Split with <= 4 nodes (thorough <= 5), depth <= 3, over 6 SetContext forms (constant, nested, "
-    "formatted, unresolvable) with all 9 probes in every gap, is compared with a pure document-order fold of the SetContext "
-    "updates written from the property text; Split copies / intersection; LenaKeyError naming the key; files actually written "
-    "by Write and Cache; no static context in run-time contexts except through UpdateContextFromStatic. Two genuine defects "
-    "repaired, three recorded as open known findings (empty Split erases the context; Source tail re-threads the context; "
-    "sibling branch after an unresolved key, depth 4). Proof obligations (evidence): ownership - LenaSequence / SetContext "
-    "._get_context return a deep copy equal to the stored context (LenaKeyError when it could not be set); StoreContext, "
-    "UpdateContextFromStatic and MakeFilename retain a deep copy of what they are given and leave the argument unchanged; "
-    "LenaSplit._set_context hands every branch its own deep copy made for it.", "DESIGN.md 5 (C13)")
-CLAIMS["C14"] = bounded_claim(
-    "Bounded: Compose(v1..vn) vs the Sequence (v1..vn) vs the fold of tagged pure getters for all chains of 1..5 variables over "
-    "3 type alphabets x 4 attribute sets x 10 value contexts (incl. pre-existing typed context.variable), Combine of 1..4, "
-    "chains with untyped variables, nested Compose / Combine, keyword arguments; data, same context, name / attributes / type "
-    "of the resulting variable, attributes of every composed variable under its type, compose in application order, frame "
-    "(context outside `variable` untouched), variables unchanged, repeated application. Two genuine defects repaired, one open "
-    "known finding (chains with untyped variables after a typed context.variable). Proof obligations (evidence): "
-    "Variable.__call__ returns getter(data) with the value's own context object, changes nothing of it but context.variable "
-    "and hands _update_context a deep copy of var_context (the variable is never changed by application); the getter of "
-    "Compose is vn.getter(...v1.getter(x)...) for any number of variables. _update_context's dictionary surgery is bounded.",
-    "DESIGN.md 5 (C14)")
-CLAIMS["C02"] = dict(
-    category="other",
-    text="Proof part (clauses stated AT THE YIELDS, hence valid for every consumer stop point k and for infinite inputs): "
-         "Run._call_run and Split._empty_run have pulled exactly k values when the k-th result is handed over; Sequence.run and "
-         "Source.__call__ pull nothing while the chain is built; RunIf.run has pulled exactly the values consumed so far; "
-         "Cache.run does not touch the incoming flow when the cache exists; FillRequest._run_fill_compute hands results on only "
-         "at block boundaries; Split.run reads its input only by list(islice(flow, bufsize)) at the start of a block and at "
-         "every yield at most bufsize x (blocks started) values have been pulled - no read-ahead, nothing pulled while the "
-         "results of a block are handed downstream. Bounded part (labelled): an independent list-level oracle computes, by "
-         "brute force over continuations, the shortest input prefix that determines k results and composes it backwards "
-         "through all single / pairs / triples of 59 element instances and 2500 (thorough 40000) random pipelines incl. nested "
-         "RunIf / Split, finite and infinite inputs, every k; weak-reference liveness for negative Slice (|index| values) and "
-         "Split (bufsize values). One genuine defect repaired (Slice kept skipped values alive).",
-    design_ref="DESIGN.md 5 (C02)", technique=TECH,
-    note=TRUST + "; itertools.islice / collections.deque are library contracts; Slice._run_negative_islice, Count.run, Filter.run "
-         "are bounded only; garbage-collector liveness is observable only by the bounded part")
+    text="Every name-resolution obligation of lena/ is enumerated completely on each run and discharged by a static scope "
+         "resolver (symtable + ast): every __all__ entry is bound, every global name loaded by any function/method/class/"
+         "module body is bound at module scope or a builtin (scope-aware: comprehension variables do not leak), every "
+         "lena.<pkg>.<name> chain resolves inside the static import closure of the using module's own subpackage. The "
+         "resolver's import model is cross-validated against sys.modules in fresh interpreters, and a vocabulary of public "
+         "elements is run with only its subpackage imported (bounded stand-in). Eight genuine defects found this way were "
+         "repaired by fix: commits (known_findings.json).",
+    design_ref="DESIGN.md 5 (C20)",
+    technique="static obligations per name use, discharged by a scope resolver (finite, complete enumeration); fresh-interpreter "
+              "runs as labelled bounded cross-check",
+    note="decided by a static resolver, not an SMT back end; trusted: CPython symtable/ast scoping, python-2 branches folded; "
+         "excluded: names injected via globals()[...] (flow/zip.py), attribute errors on instances, module-scope ordering")
 NA_REASON = "check not built yet (work in progress; see DESIGN.md section 8)"
 
 def main():
